@@ -1,0 +1,8 @@
+//go:build verif
+
+package node
+
+import "github.com/evstack/ev-node/block"
+
+// VerifBlockManager exposes the node's block manager (build tag "verif").
+func (n *FullNode) VerifBlockManager() *block.Manager { return n.blockManager }
